@@ -488,15 +488,26 @@ def trso_line10(
         for node in query.graphs[query.domain].topological_sort()
         if not is_transport_node(node)
     ]
-    expressions = []
+    ordering_set = set(ordering)
+    carried = query.expression
+    # P(v | pre) can be read off the domain's distribution only while the distribution carried by
+    # the recursion still is (a marginal of) that joint distribution; after a previous line 10 it
+    # is a c-factor, and the conditional has to be computed from it (as line 9 does)
+    carried_is_joint = isinstance(carried, PopulationProbability) and not carried.parents
+    expressions: list[Expression] = []
     for node in district:
         i = ordering.index(node)
         pre_node = set(ordering[:i])
-        # note tikka splits this into two expressions that when taken together equal pre_node
-        distribution = Distribution.safe(node | pre_node)
-        expressions.append(
-            PopulationProbability(population=query.domain, distribution=distribution)
-        )
+        if carried_is_joint:
+            # note tikka splits this into two expressions that when taken together equal pre_node
+            distribution = Distribution.safe(node | pre_node)
+            expressions.append(
+                PopulationProbability(population=query.domain, distribution=distribution)
+            )
+        else:
+            numerator = Sum.safe(carried, ordering_set - pre_node - {node})
+            denominator = Sum.safe(carried, ordering_set - pre_node)
+            expressions.append(numerator / denominator)
 
     new_query = deepcopy(query)
     new_query.target_interventions = query.target_interventions.intersection(district)
